@@ -117,6 +117,23 @@ pub enum SendError {
     EmptyPacket {},
 }
 
+/// Checks that `item` is a message a [`RelayedStream`] accepts for sending.
+///
+/// The registry also runs this check before it queues a datagram for another client, so
+/// that a datagram which could never be written out is dropped where it was received
+/// instead of failing the connection of the client it is addressed to.
+pub(super) fn ensure_sendable(item: &RelayToClientMsg) -> Result<(), SendError> {
+    let size = item.encoded_len();
+    ensure!(
+        size <= MAX_PACKET_SIZE,
+        SendError::ExceedsMaxPacketSize { size }
+    );
+    if let RelayToClientMsg::Datagrams { datagrams, .. } = item {
+        ensure!(!datagrams.contents.is_empty(), SendError::EmptyPacket);
+    }
+    Ok(())
+}
+
 impl<S> Sink<RelayToClientMsg> for RelayedStream<S>
 where
     S: Sink<bytes::Bytes, Error = StreamError> + Unpin,
@@ -128,14 +145,7 @@ where
     }
 
     fn start_send(mut self: Pin<&mut Self>, item: RelayToClientMsg) -> Result<(), Self::Error> {
-        let size = item.encoded_len();
-        ensure!(
-            size <= MAX_PACKET_SIZE,
-            SendError::ExceedsMaxPacketSize { size }
-        );
-        if let RelayToClientMsg::Datagrams { datagrams, .. } = &item {
-            ensure!(!datagrams.contents.is_empty(), SendError::EmptyPacket);
-        }
+        ensure_sendable(&item)?;
 
         Pin::new(&mut self.inner)
             .start_send(item.to_bytes().freeze())
